@@ -319,6 +319,34 @@ fn chk_fault_nopanic(kind: &str, mode: &str, data: &[u8], args: &[&str]) -> Resu
     }
     Ok(())
 }
+/// small scenarios: at every operation, every error kind, with and without a message
+fn chk_fault_allkinds(kind: &str, mode: &str, data: &[u8], args: &[&str]) -> Result<(), String> {
+    let (r0, c0) = scenario(kind, mode, args, Core::new(data.to_vec(), 0));
+    if r0? == "err" {
+        return Err("harness: the fault-free run fails".into());
+    }
+    for k in 0..c0.ops {
+        for fk in 0..crate::streams::FAULT_KINDS.len() {
+            for bare in [false, true] {
+                let mut core = Core::new(data.to_vec(), 0);
+                core.fail_from = Some(k);
+                core.fail_kind = fk;
+                core.fail_bare = Some(bare);
+                match scenario(kind, mode, args, core).0 {
+                    Err(e) => return Err(format!("{e} when the stream fails from operation {k} of {} on with {:?}", c0.ops, crate::streams::FAULT_KINDS[fk])),
+                    Ok(s) if s != "err" => {
+                        return Err(format!(
+                            "success reported although the stream failed from operation {k} of {} ({}) on with {:?} ({})",
+                            c0.ops, c0_event_at(&c0, k), crate::streams::FAULT_KINDS[fk], if bare { "a bare error kind" } else { "an error with a message" }
+                        ))
+                    }
+                    Ok(_) => {}
+                }
+            }
+        }
+    }
+    Ok(())
+}
 fn chk_fault_lookup(mode: &str, data: &[u8]) -> Result<(), String> {
     let v = spec::parse(data, false).map_err(|e| format!("harness: {e}"))?;
     let all = spec::all_tiles(&v, 1_000_000)?;
